@@ -121,6 +121,43 @@ Proof. induction n as [|n IH]; intros v Hv; cbn [iter]; [exact Hv | apply IH, lc
 Theorem rand_next_range v : 0 <= v < 2147483648 -> 0 <= rand_next v < 2147483648.
 Proof. intros Hv. unfold rand_next. apply iter_range. exact Hv. Qed.
 
+(** the generator modulo 16 *)
+Definition lcg16 (r : Z) : Z := (11117 * r + 211231) mod 16.
+Fixpoint iter16 (n : nat) (r : Z) : Z := match n with O => r | S k => iter16 k (lcg16 r) end.
+
+Lemma lcg_mod16 v : (lcg v) mod 16 = lcg16 (v mod 16).
+Proof.
+  unfold lcg, lcg16. rewrite land_mod. Z.div_mod_to_equations. lia.
+Qed.
+
+Lemma iter_mod16 n : forall v, (iter n v) mod 16 = iter16 n (v mod 16).
+Proof.
+  induction n as [|n IH]; intros v; cbn [iter iter16]; [reflexivity|].
+  rewrite IH, lcg_mod16. reflexivity.
+Qed.
+
+Definition residues : list Z := [0; 1; 2; 3; 4; 5; 6; 7; 8; 9; 10; 11; 12; 13; 14; 15].
+Definition counts : list nat := [4; 5; 6; 7; 8; 9; 10; 11]%nat.
+Lemma no_return_mod16 : forallb (fun k => forallb (fun r => negb (iter16 k r =? r)) residues) counts = true.
+Proof. vm_compute. reflexivity. Qed.
+
+(** a draw never returns the state it started from: successive results of psf_rand_int32 differ *)
+Theorem rand_next_moves v : 0 <= v -> rand_next v <> v.
+Proof.
+  intros Hv E. unfold rand_next in E.
+  assert (Hk : In (Z.to_nat (4 + Z.land v 7)) counts).
+  { change 7 with (Z.ones 3). rewrite Z.land_ones by lia. pose proof (Z.mod_pos_bound v (2 ^ 3) ltac:(lia)) as Hm. change (2 ^ 3) with 8 in *.
+    assert (Hc : v mod 8 = 0 \/ v mod 8 = 1 \/ v mod 8 = 2 \/ v mod 8 = 3 \/ v mod 8 = 4 \/ v mod 8 = 5 \/ v mod 8 = 6 \/ v mod 8 = 7) by lia.
+    unfold counts. destruct Hc as [H|[H|[H|[H|[H|[H|[H|H]]]]]]]; rewrite H; cbn; auto 10. }
+  assert (Hr : In (v mod 16) residues).
+  { pose proof (Z.mod_pos_bound v 16 ltac:(lia)) as Hm. unfold residues.
+    assert (Hc : v mod 16 = 0 \/ v mod 16 = 1 \/ v mod 16 = 2 \/ v mod 16 = 3 \/ v mod 16 = 4 \/ v mod 16 = 5 \/ v mod 16 = 6 \/ v mod 16 = 7 \/
+                 v mod 16 = 8 \/ v mod 16 = 9 \/ v mod 16 = 10 \/ v mod 16 = 11 \/ v mod 16 = 12 \/ v mod 16 = 13 \/ v mod 16 = 14 \/ v mod 16 = 15) by lia.
+    repeat (destruct Hc as [H|Hc]; [rewrite H; cbn; auto 20|]). rewrite Hc. cbn. auto 20. }
+  pose proof no_return_mod16 as H. rewrite forallb_forall in H. specialize (H _ Hk). rewrite forallb_forall in H. specialize (H _ Hr).
+  apply negb_true_iff in H. apply Z.eqb_neq in H. apply H. rewrite <- iter_mod16. rewrite E. reflexivity.
+Qed.
+
 (** ---- the inventory regenerated from the build (Gen_Globals.v): every writable process-wide object of the library is one
     the classification knows; none of the classes is read by a per-handle result (Diagnostic: only through the NULL-handle
     queries; Scratch: written before it is read inside one call; Generator: names and ids only; Table: never written) *)
